@@ -5,9 +5,11 @@
 package main
 
 import (
+	"bytes"
 	"context"
 	"errors"
 	"fmt"
+	"io"
 	"net"
 	"time"
 
@@ -277,6 +279,58 @@ func scenario(cfg hlib.ChanCfg, specs []wspec, closeWith string, bound int, tag 
 	}
 }
 
+// multiChunk: a reader-based send that spans several 1 KiB chunks on a non-blocking channel whose queue
+// fills in the middle of the message (the sender is stalled): the call must come back at once - with the
+// queue-full error, part of the message being queued already - and never wait for space.
+func multiChunk(q int) *explore.Scenario {
+	type mobs struct {
+		env     *hlib.Env
+		n       int64
+		err     error
+		done    bool
+		blocked int
+	}
+	return &explore.Scenario{
+		Name:  fmt.Sprintf("aq(%d,N)/ReadFrom(%d bytes in 1 KiB chunks) against a stalled sender", q, 1024*(q+2)),
+		Bound: 2,
+		Cache: true,
+		Cfg:   vsched.Config{MaxSteps: 6000},
+		Init:  func() any { return &mobs{} },
+		Body: func(v any) {
+			o := v.(*mobs)
+			o.env = hlib.NewEnv(hlib.ChanCfg{Q: q, Until: false}, nil)
+			o.env.T.Stalled = true
+			w := vsched.Go("writer", func() {
+				t := vsched.Cur()
+				b0 := t.Blocked
+				o.n, o.err = o.env.Ch.ReadFrom(struct{ io.Reader }{bytes.NewReader(make([]byte, 1024*(q+2)))})
+				o.blocked = t.Blocked - b0
+				o.done = true
+			})
+			peer := vsched.Go("peer", func() {
+				vsched.Sleep(int64(200 * time.Millisecond))
+				o.env.T.Release()
+			})
+			vsched.Join(w)
+			vsched.Join(peer)
+		},
+		Outcome: func(x *vsched.Exec, v any) string {
+			o := v.(*mobs)
+			return fmt.Sprint(o.n, o.err, o.blocked, o.env.T.LogString())
+		},
+		Check: func(x *vsched.Exec, v any) []explore.Finding {
+			o := v.(*mobs)
+			var fs []explore.Finding
+			if !o.done {
+				fs = append(fs, explore.Finding{Key: "call-never-returned", Msg: "ReadFrom on a non-blocking channel never returned; log: " + o.env.T.LogString()})
+			} else if o.blocked > 0 {
+				fs = append(fs, explore.Finding{Key: "nonblocking-call-blocked/ReadFrom", Msg: fmt.Sprintf("ReadFrom on a non-blocking channel waited (its goroutine was disabled %d times inside the call) and returned (%d, %v); log: %s", o.blocked, o.n, o.err, o.env.T.LogString())})
+			}
+			return fs
+		},
+	}
+}
+
 func build(tier string) []*explore.Scenario {
 	W1, WV, C1, CV := hlib.Write1, hlib.Writev, hlib.CtxWrite1, hlib.CtxWritev
 	var scs []*explore.Scenario
@@ -295,9 +349,9 @@ func build(tier string) []*explore.Scenario {
 				scenario(cfg, []wspec{{"cancel-later", []hlib.EP{C1, CV}}, {"bg", []hlib.EP{WV}}}, "", bound, ""),
 				scenario(cfg, []wspec{{"deadline", []hlib.EP{CV, C1, CV}}, {"bg", []hlib.EP{W1}}}, "", bound, ""),
 			)
-			cws := []string{"err", "nil"}
-			if q == 1 {
-				cws = append(cws, "parent") // (the parent context is cancelled instead of a Close)
+			cws := []string{"err"}
+			if q == 1 || tier == "thorough" {
+				cws = append(cws, "nil", "parent") // (Close(nil); the parent context cancelled instead of a Close)
 			}
 			for _, cw := range cws {
 				cs := scenario(cfg, []wspec{{"bg", []hlib.EP{W1, CV}}, {"bg", []hlib.EP{C1}}}, cw, bound, "")
@@ -306,6 +360,7 @@ func build(tier string) []*explore.Scenario {
 			}
 		}
 	}
+	scs = append(scs, multiChunk(1), multiChunk(2))
 	// the accepted-but-unsent bound with larger queues: one writer issuing 2q+2 calls against a stalled sender
 	for _, q := range []int{3, 4} {
 		var eps []hlib.EP
